@@ -21,14 +21,7 @@ Section SchedFacts.
     rewrite run_cons. apply IH, HP, Hs.
   Qed.
 
-  (* weak fairness, finitely: a schedule is made of n fair segments when each segment gives a turn
-     to every thread that is enabled (does not stutter) in the state at which the segment starts *)
-  Inductive fair_rounds : nat -> state -> list tid -> Prop :=
-  | fr_0 : forall s sched, fair_rounds 0 s sched
-  | fr_S : forall n s seg rest,
-      (forall t, step s t <> s -> In t seg) ->
-      fair_rounds n (run seg s) rest ->
-      fair_rounds (S n) s (seg ++ rest).
+  Notation fair_rounds := (fair_rounds step).
 
   Variable P : state -> Prop.           (* phase / invariant in which the ranking argument holds *)
   Variable rank : state -> nat.
